@@ -64,7 +64,7 @@ func basicValues(t reflect.Type) []namedValue {
 	case auxType:
 		return []namedValue{{"nil-aux", reflect.Zero(auxType)}, nv("aux{k:1}", stackage.Auxiliary{"k": 1})}
 	case opType:
-		return []namedValue{{"Eq", reflect.ValueOf(stackage.Eq).Convert(reflect.TypeOf(stackage.Eq))}, nv("userOp", userOp{"~=", "ctx"}), {"nil-op", reflect.Zero(opType)}, nv("ComparisonOperator(0)", stackage.ComparisonOperator(0))}
+		return []namedValue{{"Eq", reflect.ValueOf(stackage.Eq).Convert(reflect.TypeOf(stackage.Eq))}, nv("userOp", userOp{"~=", "ctx"}), {"nil-op", reflect.Zero(opType)}, nv("ComparisonOperator(0)", stackage.ComparisonOperator(0)), nv("sliceOp", sliceOp{"=~", "ctx"})}
 	case anyType:
 		return []namedValue{nv(`"v"`, "v"), nv("7", 7), {"nil", reflect.Zero(anyType)}, nv("Stack", stackage.Or().Push("n")), nv("Condition", stackage.Cond("ck", stackage.Eq, "cv")),
 			nv("[]string{q}", []string{"q"}), nv("'r'", 'r'), nv("*log.Logger", catLogger), nv("LogLevel3", stackage.LogLevel3), nv(`"stdout-no"`, "off")}
